@@ -463,13 +463,23 @@ class RTDCBase(abc.ABC):
             if self.basins:
                 features = []
                 for bn in self.basins:
-                    if bn.features and set(bn.features) <= set(features):
-                        # We already have the features from a different basin.
-                        # There might be a basin availability check going on
-                        # somewhere, but we are not interested in it.
-                        continue
-                    if bn.is_available():
-                        features += bn.features
+                    try:
+                        if (bn.features
+                                and set(bn.features) <= set(features)):
+                            # We already have the features from a different
+                            # basin. There might be a basin availability
+                            # check going on somewhere, but we are not
+                            # interested in it.
+                            continue
+                        if bn.is_available():
+                            features += bn.features
+                    except OSError:
+                        # The basin became unavailable after its
+                        # availability was verified (e.g. connection lost).
+                        warnings.warn(
+                            f"Could not determine features of basin "
+                            f"'{bn.name}' in {self}:\n"
+                            f"{traceback.format_exc()}")
                 self._basins_features = sorted(set(features))
             else:
                 self._basins_features = []
